@@ -53,6 +53,10 @@ CALLBACK_SNIPPETS = [
     "dd = arrayNew(objectNew('a', 1), objectNew('a', 2))\nfunction cf(x):\n    yy = x * 2\n    return yy\nendfunction\ndataCalculatedField(dd, 'b', 'cf(a) + kk', objectNew('kk', 10))\nsystemLog('cv ' + jsonStringify(dd))",
     "ld = arrayNew(objectNew('k', 1), objectNew('k', 2))\nrd = arrayNew(objectNew('k', 2, 'v', 'x'), objectNew('k', 1, 'v', 'y'))\nfunction kf(x):\n    zq = x + 0\n    return zq\nendfunction\njj = dataJoin(ld, rd, 'kf(k)')\nsystemLog('j ' + arrayLength(jj))",
     "ld = arrayNew(objectNew('k', 1), objectNew('k', 2))\nrd = arrayNew(objectNew('k', 2, 'v', 'x'), objectNew('k', 1, 'v', 'y'))\nfunction kf(x):\n    zq = x + 0\n    return zq\nendfunction\njj = dataJoin(ld, rd, 'kf(k) + off', null, false, objectNew('off', 0))\nsystemLog('jv ' + arrayLength(jj))",
+    # functions whose body is a single return statement: direct recursion, callbacks, chains
+    "function fact(n):\n    return if(n <= 1, 1, n * fact(n - 1))\nendfunction\nsystemLog('fact ' + fact(8))",
+    "function cmp1(a, b):\n    return a - b\nendfunction\nfunction key1(x):\n    return cmp1(x, 2) > 0\nendfunction\narr1 = arrayNew(5, 3, 1, 4, 2)\narraySort(arr1, cmp1)\nsystemLog('s1 ' + jsonStringify(arr1) + arrayIndexOf(arr1, key1))",
+    "function one():\n    return two() + 1\nendfunction\nfunction two():\n    return three() + 1\nendfunction\nfunction three():\n    return 3\nendfunction\nsystemLog('chain ' + one())\nsystemLog('chain ' + one())",
     # empty / one-sided inputs of the data functions (callbacks on the other side still count)
     "le = arrayNew()\nrd = arrayNew(objectNew('k', 2), objectNew('k', 1))\nfunction kf(x):\n    zq = x + 0\n    return zq\nendfunction\njj = dataJoin(le, rd, 'k', 'kf(k) + off', false, objectNew('off', 0))\nsystemLog('je ' + arrayLength(jj))",
     "ld = arrayNew(objectNew('k', 1))\nre = arrayNew()\nfunction kf(x):\n    zq = x + 0\n    return zq\nendfunction\njj = dataJoin(ld, re, 'kf(k) + off', null, true, objectNew('off', 0))\nsystemLog('jr ' + arrayLength(jj))",
@@ -60,6 +64,8 @@ CALLBACK_SNIPPETS = [
 ]
 
 NONTERM_SNIPPETS = [
+    "function rec1(n):\n    return rec1(n + 1)\nendfunction\nrec1(0)",
+    "function ping(n):\n    return pong(n + 1)\nendfunction\nfunction pong(n):\n    return ping(n + 1)\nendfunction\nping(0)",
     "ii = 0\nwhile true:\n    ii = ii + 1\n    systemLog('i ' + ii)\nendwhile",
     "function rec(n):\n    systemLog('r ' + n)\n    return rec(n + 1)\nendfunction\nrec(0)",
     "lbl:\nkk = kk + 1\njump lbl",
